@@ -197,7 +197,7 @@ class StartupRun:
                             add_resource_factory(fac, a["name"], types=[TYPES[t] for t in tys], description=desc)
                     for t in tys:
                         self.log("pubFac", i, t, a["name"], a["fid"])
-                    self.expected_events.append((tuple(tys), self.final_name(i, which, a["name"]), desc, True))
+                    self.expected_events.append((tuple(sorted(tys)), self.final_name(i, which, a["name"]), desc, True))
                 elif k == "await":
                     self.log("req", i, a["ty"], a["name"])
                     if a.get("inject"):
@@ -406,7 +406,7 @@ class StartupRun:
                         async with ctx.resource_added.stream_events(max_queue_size=100000) as stream:
                             listening.set()
                             async for ev in stream:
-                                self.events.append((tuple(TYPES.index(t) if t in TYPES else -1 for t in ev.resource_types), ev.resource_name,
+                                self.events.append((tuple(sorted(TYPES.index(t) if t in TYPES else -1 for t in ev.resource_types)), ev.resource_name,
                                                     ev.resource_description, ev.is_factory))
 
                     ltg.start_soon(listen)
